@@ -34,8 +34,9 @@ Proof.
   all: try (match goal with H : c_html _ = true /\ _ |- _ => destruct H as [_ H] end).
   all: repeat match goal with H : _ \/ _ |- _ => destruct H as [H|H] end.
   all: try (match goal with H : exists _, _ |- _ => destruct H as (l & Hl & [H|H]) end).
-  all: destruct H as (_ & _ & C & N & _); split;
-       [ intros k v I K; exfalso; exact (N k v I K)
+  all: destruct H as (_ & _ & C & N & _ & N3); split;
+       [ split; [ intros k v I K; exfalso; exact (N k v I K)
+                | unfold named_attrs; eapply Forall_impl; [|exact N3]; intros kv [E|E]; rewrite E; cbn; tauto ]
        | intros ch E _; destruct C as [C|C]; rewrite C in E; [discriminate E | injection E as <-; constructor] ].
 Qed.
 
@@ -182,6 +183,24 @@ Theorem good_url_chars (RF : forall s, Forall code_point (rf s)) v : gurl rf v -
 Proof.
   intros [-> | (raw & -> & _)]; [reflexivity|]. unfold normalize_link. apply encode_alphabet, RF.
 Qed.
+
+(* C04: the attribute names of every token of the result, and of every child of an inline token, come
+   from the fixed vocabulary [attr_names] - no input can introduce an attribute *)
+Definition names_inv (t : token) : Prop :=
+  named_attrs t /\ forall ch, tchildren t = Some ch -> str_eqb (ttype t) s_inline = true -> Forall named_attrs ch.
+
+Lemma url_inv_names t : url_inv t -> names_inv t.
+Proof.
+  intros [[_ N] C]. split; [exact N|]. intros ch E I. eapply Forall_impl; [|exact (C ch E I)]. intros x [_ Nx]. exact Nx.
+Qed.
+
+Theorem parse_attr_names src env ts env' :
+  env_good rf env -> parse cfg rf cf lt src env = Ok (ts, env') -> Forall names_inv ts.
+Proof. intros HE E. eapply Forall_impl; [|exact (proj1 (parse_urls_good src env ts env' HE E))]. exact url_inv_names. Qed.
+
+Theorem parse_inline_attr_names src env ts env' :
+  env_good rf env -> parse_inline cfg rf cf lt src env = Ok (ts, env') -> Forall names_inv ts.
+Proof. intros HE E. eapply Forall_impl; [|exact (proj1 (parse_inline_urls_good src env ts env' HE E))]. exact url_inv_names. Qed.
 
 End Urls.
 
